@@ -2598,6 +2598,9 @@ func c14GenTuples(r *rng, f c14Func, n int) [][]c14Val {
 func c14Generate(co *caseOut, cf *commonFlags, work string) error {
 	r := newRng(cf.seed)
 	hist := map[string]int{}
+	if os.Getenv("C14_ONLY") == "initframe" { // development: this kind alone
+		return c14InitGenerate(co, cf, r, work)
+	}
 	// volume n = number of (program, entry function) cases of kind diff; programs of ~24 entry functions
 	nUnits := max(1, cf.n/40)
 	perUnit := 24
@@ -2621,6 +2624,10 @@ func c14Generate(co *caseOut, cf *commonFlags, work string) error {
 	co.extra["x_features"] = hist
 	// programs the Go type checker rejects (and accepted twins of them)
 	if err := c14RejectGenerate(co, cf, r, work); err != nil {
+		return err
+	}
+	// the shared frames: several init() functions, _deploy, static slots
+	if err := c14InitGenerate(co, cf, r, work); err != nil {
 		return err
 	}
 	// MiniGo fragment
